@@ -358,7 +358,7 @@ func init() {
 		ID:        "C18",
 		Level:     "exploration",
 		NeedsTerm: true,
-		Rule: "differential pairs of sessions: A = start text, then the key script K typed twice; B = start text, start recording, K, stop recording, replay (Emacs: C-x ( K C-x ) C-x e; Vi: q<r> K q @<r> for 10 registers, K starting and ending in command mode, ESC in its own read). K = 1-12 tokens: printable text incl. non-ASCII characters (Latin-1, above U+00FF, CJK), quotes, backslashes and text that looks like escapes (\\e, \\C-a), control keys, ESC-prefixed keys, CSI arrows/Home/End/Delete, quoted-insert + key, digit arguments, Vi commands with counts and argument keys, operators with text objects and surround characters (di\" da( yi'), named registers; one case in four has AcceptMultiline set and K may contain a Return that is refused (a line ending with a backslash: a newline is inserted and K goes on); one case in six records the macro in one call (accepted with RET) and replays it in the next call of the same Shell (session A types K in both calls); one case in five first makes an empty recording on the same shell and types a few keys; oracle: the final buffer texts of A and B are equal. " +
+		Rule: "one Emacs case in eight holds keys whose command feeds keys back to the reader (sequences bound to inputrc macros, one nested; do-lowercase-version): differences there are classed a-key-of-the-recording-feeds-keys; differential pairs of sessions: A = start text, then the key script K typed twice; B = start text, start recording, K, stop recording, replay (Emacs: C-x ( K C-x ) C-x e; Vi: q<r> K q @<r> for 10 registers, K starting and ending in command mode, ESC in its own read). K = 1-12 tokens: printable text incl. non-ASCII characters (Latin-1, above U+00FF, CJK), quotes, backslashes and text that looks like escapes (\\e, \\C-a), control keys, ESC-prefixed keys, CSI arrows/Home/End/Delete, quoted-insert + key, digit arguments, Vi commands with counts and argument keys, operators with text objects and surround characters (di\" da( yi'), named registers; one case in four has AcceptMultiline set and K may contain a Return that is refused (a line ending with a backslash: a newline is inserted and K goes on); one case in six records the macro in one call (accepted with RET) and replays it in the next call of the same Shell (session A types K in both calls); one case in five first makes an empty recording on the same shell and types a few keys; oracle: the final buffer texts of A and B are equal. " +
 			"distinct non-trivial = distinct (style, set of key kinds in K, length class) tuples",
 		Assumptions: []string{"convert-meta off, input-meta and output-meta on (non-ASCII text in K is text)", "one Emacs case in eight holds keys whose command feeds keys back to the reader (sequences bound to inputrc macros, one nested; do-lowercase-version): a difference in those cases is classed a-key-of-the-recording-feeds-keys (known finding)"},
 		N: func(tier string) int {
